@@ -524,6 +524,12 @@ fn build(base_ver: u8, muts: &[&Mutn], now: i64, keys: &Keys) -> String {
             _ => {}
         }
     }
+    if muts.iter().any(|x| matches!(x.op, Op::Str(StrOp::StdAlphabet))) {
+        // five '~' always contain a 3-byte-aligned "~~~" = base64url "fn5-": the header segment then surely
+        // contains a character that differs between the two alphabets (keeps the case independent of the
+        // signature bytes, hence of the clock)
+        h.insert("x".into(), json!("~~~~~"));
+    }
     let (msg, mut sig) = signed(&keys.trusted, &h, &c);
     let mut sig_text: Option<String> = None;
     for mu in muts {
@@ -870,6 +876,8 @@ fn witness(base_ver: u8, muts: &[&Mutn], r: &CaseResult) -> Value {
         "oracle": format!("{:?}", r.oracle),
         "verify": format!("{:?}", r.real),
         "router": format!("{:?}", r.route),
+        // vpc keeps the shortest witness per class: make "fewest mutations" the shortest
+        "pad": "-".repeat(400 * muts.len().saturating_sub(1)),
     })
 }
 
@@ -1001,7 +1009,9 @@ pub fn run(args: &vpc::Args) -> ! {
             let (now, _) = unix_now();
             (now, build(base_ver, &[], now, &keys))
         };
-        let is_identity = |muts: &[&Mutn]| build(base_ver, muts, base_token_shape.0, &keys) == base_token_shape.1;
+        // (the alphabet translation is never filtered: whether it changes the string depends on the signature bytes,
+        // and the set of evaluated cases must not depend on the clock)
+        let is_identity = |muts: &[&Mutn]| !muts.iter().any(|x| matches!(x.op, Op::Str(StrOp::StdAlphabet))) && build(base_ver, muts, base_token_shape.0, &keys) == base_token_shape.1;
         record(base_ver, &[], r0);
 
         // singles: full catalogue (all 512 signature bits)
@@ -1144,7 +1154,7 @@ pub fn run(args: &vpc::Args) -> ! {
                             n += 1;
                             evaluations.fetch_add(1, std::sync::atomic::Ordering::Relaxed);
                             distinct.add(format!("j|v{base_ver}|{}", muts.iter().map(|x| x.id.as_str()).collect::<Vec<_>>().join("|")).as_bytes());
-                            let w = || json!({"stage": "jwks", "base": format!("v{base_ver}"), "mutations": muts.iter().map(|x| x.id.clone()).collect::<Vec<_>>(), "token": token, "now_unix": now, "oracle": format!("{ov:?}"), "verify": format!("{rv:?}")});
+                            let w = || json!({"stage": "jwks", "verifier": "static key + real JwksKeyStore fed by a loopback JWKS endpoint (kid k1 -> third key); replay needs loopback TCP", "base": format!("v{base_ver}"), "mutations": muts.iter().map(|x| x.id.clone()).collect::<Vec<_>>(), "token": token, "now_unix": now, "oracle": format!("{ov:?}"), "verify": format!("{rv:?}"), "pad": "-".repeat(400 * muts.len().saturating_sub(1))});
                             let oc = match &ov {
                                 Verdict::Accept { .. } => "accept".to_string(),
                                 Verdict::Refuse(x) => format!("refuse({x})"),
